@@ -23,8 +23,19 @@ import (
 // RasterizeColliderSolid(c) "rasterizes the collider as a filled in Solid using the even-odd test", i.e. the
 // solid NewColliderSolid(c); RasterizeCollider(c) draws lines of thickness LineWidth pixels, i.e. the points within
 // LineWidth/2 pixels = LineWidth/(2*Scale) units of the collider, which is NewColliderSolidHollow(c, that radius).
-// Both go through RasterizeSolidFilter with a circle test that is conservative for those solids, so they must be
-// pixel-identical to the unfiltered RasterizeSolid of these solids.
+// Both go through RasterizeSolidFilter with a circle test (circumscribed circle of the tile against the collider)
+// that is conservative for those solids, so they must be pixel-identical to the unfiltered RasterizeSolid of these
+// solids -- except at pixels where membership itself is undecided: the library's circle test is the OPEN circle for
+// segments (Segment.CircleCollision uses <) and the first sub-sample of a pixel is the pixel's min corner, hence a
+// tile's min corner is a sample point ON the circumscribed circle.  When the collider touches the tile in exactly
+// that point (a marching-squares mesh without search has its vertices on a half-lattice that is commensurate with
+// the pixel grid derived from its own bounds, so this does happen), ColliderSolid.Contains of the sample is the
+// parity of a ray cast from a point on the collider, i.e. decided by the sign of a rounding error (observed:
+// scale -0 counted as a hit); nothing in the docs fixes membership on the outline, so neither image is wrong.
+// Such pixels are the decision boundary of the clause: a differing pixel is excused (and the case counted as
+// skipped) iff one of its sub-sample points lies within sampleBand of the outline of the rasterised solid, measured
+// by an independent distance (brute-force point/segment distances for mesh colliders, closed-form primitive
+// distances otherwise).  Any other difference is a violation.
 
 type rastCase struct {
 	Mode   string     `json:"mode"` // solidfilter collidersolid collider
@@ -45,27 +56,38 @@ type colSpec struct {
 	Prims []gen.Shape2 `json:"prims,omitempty"`
 }
 
-func (c *colSpec) build() (model2d.Collider, bool) {
+// build returns the collider and an independent distance from a point to the collider's outline.
+func (c *colSpec) build() (model2d.Collider, func(kit.V2) float64, bool) {
 	if c.Kind == "prims" {
 		var cs []model2d.Collider
 		for _, p := range c.Prims {
 			cs = append(cs, p.Build())
 		}
-		return model2d.NewJoinedCollider(cs), true
+		prims := c.Prims
+		dist := func(p kit.V2) float64 {
+			best := math.Inf(1)
+			for _, s := range prims {
+				best = math.Min(best, math.Abs(s.RefSDF(p).SDF))
+			}
+			return best
+		}
+		return model2d.NewJoinedCollider(cs), dist, true
 	}
 	solid := c.Tree.Build()
 	if !model2d.BoundsValid(solid) {
-		return nil, false
+		return nil, nil, false
 	}
 	size := solid.Max().Sub(solid.Min()).MaxCoord()
 	if !validDelta(size) {
-		return nil, false
+		return nil, nil, false
 	}
 	mesh := model2d.MarchingSquaresSearch(solid, size/c.Cells, c.Iters)
 	if mesh.NumSegments() == 0 {
-		return nil, false
+		return nil, nil, false
 	}
-	return model2d.MeshToCollider(mesh), true
+	segs := m3.Segs(mesh)
+	dist := func(p kit.V2) float64 { d, _ := kit.MeshDist2(segs, p); return d }
+	return model2d.MeshToCollider(mesh), dist, true
 }
 
 func genRast(t *rapid.T) rastCase {
@@ -129,15 +151,21 @@ func (c *countCollider) CircleCollision(p model2d.Coord, r float64) bool {
 	return ok
 }
 
-func diffImages(ref, got *image.Gray) string {
+// diffImages compares two images; "" means identical.  excused (may be nil) is asked about every differing pixel;
+// pixels it excuses are counted in nExcused and do not make the images differ.
+func diffImages(ref, got *image.Gray, excused func(x, y int) bool) (msg string, nExcused int) {
 	if ref.Rect != got.Rect {
-		return fmt.Sprintf("image bounds %v, reference %v", got.Rect, ref.Rect)
+		return fmt.Sprintf("image bounds %v, reference %v", got.Rect, ref.Rect), 0
 	}
 	n := 0
 	first := ""
 	for y := ref.Rect.Min.Y; y < ref.Rect.Max.Y; y++ {
 		for x := ref.Rect.Min.X; x < ref.Rect.Max.X; x++ {
 			if a, b := ref.GrayAt(x, y).Y, got.GrayAt(x, y).Y; a != b {
+				if excused != nil && excused(x, y) {
+					nExcused++
+					continue
+				}
 				if n == 0 {
 					first = fmt.Sprintf("first at pixel (%d,%d): %d, unfiltered reference %d", x, y, b, a)
 				}
@@ -146,9 +174,38 @@ func diffImages(ref, got *image.Gray) string {
 		}
 	}
 	if n == 0 {
-		return ""
+		return "", nExcused
 	}
-	return fmt.Sprintf("%d of %d pixels differ; %s", n, ref.Rect.Dx()*ref.Rect.Dy(), first)
+	return fmt.Sprintf("%d of %d pixels differ; %s", n, ref.Rect.Dx()*ref.Rect.Dy(), first), nExcused
+}
+
+// sampleBand is the half-width of the undecidable band around the outline of the rasterised solid, as a fraction
+// of the pixel diagonal (plus the same fraction of the coordinate magnitude, for rounding of the positions): the
+// rounding errors of the ray/circle tests are ~1e-16 relative, the displacement any real defect of a tile filter
+// produces is a sizeable fraction of a pixel.
+const sampleBand = 1e-9
+
+// undecidedPixel builds the excuse predicate for the collider modes: pixel (x, y) of a w x h image over [lo, hi]
+// has a sub-sample point (the rasteriser samples lo_px + (hi_px-lo_px)*i/(sub+1), i = 0..sub-1, per axis) whose
+// independent distance from the collider differs from r (0: the outline itself; > 0: the hollow solid's outline)
+// by at most the band.
+func undecidedPixel(lo, hi kit.V2, w, h, sub int, dist func(kit.V2) float64, r float64) func(x, y int) bool {
+	pw, ph := (hi[0]-lo[0])/float64(w), (hi[1]-lo[1])/float64(h)
+	band := sampleBand * (math.Hypot(pw, ph) + math.Max(math.Max(math.Abs(lo[0]), math.Abs(lo[1])), math.Max(math.Abs(hi[0]), math.Abs(hi[1]))))
+	return func(x, y int) bool {
+		x0, y0 := float64(x)*pw+lo[0], float64(y)*ph+lo[1]
+		x1, y1 := float64(x+1)*pw+lo[0], float64(y+1)*ph+lo[1]
+		dx, dy := (x1-x0)/float64(sub+1), (y1-y0)/float64(sub+1)
+		for i := 0; i < sub; i++ {
+			for j := 0; j < sub; j++ {
+				p := kit.V2{x0 + dx*float64(i), y0 + dy*float64(j)}
+				if math.Abs(dist(p)-r) <= band {
+					return true
+				}
+			}
+		}
+		return false
+	}
 }
 
 func checkRast(c rastCase, o *kit.Obs) error {
@@ -157,6 +214,7 @@ func checkRast(c rastCase, o *kit.Obs) error {
 	var bmin, bmax model2d.Coord // bounds of the object that will be rasterised
 	var solid model2d.Solid
 	var col model2d.Collider
+	var colDist func(kit.V2) float64
 	lw := c.LineW
 	if lw == 0 {
 		lw = 1 // RasterizerDefaultLineWidth
@@ -172,7 +230,7 @@ func checkRast(c rastCase, o *kit.Obs) error {
 		o.Label("src:" + c.Src.Kind)
 	default:
 		var ok bool
-		col, ok = c.Col.build()
+		col, colDist, ok = c.Col.build()
 		if !ok {
 			o.Skip("empty-collider")
 			return nil
@@ -186,10 +244,12 @@ func checkRast(c rastCase, o *kit.Obs) error {
 		return nil
 	}
 	rast := &model2d.Rasterizer{Subsamples: c.Sub, LineWidth: c.LineW}
+	rlo, rhi := m3.V2(bmin), m3.V2(bmax) // the rasterised rectangle
 	if c.Pad != nil {
 		lo := model2d.XY(bmin.X+c.Pad[0]*size.X, bmin.Y+c.Pad[1]*size.Y)
 		hi := model2d.XY(bmax.X+c.Pad[2]*size.X, bmax.Y+c.Pad[3]*size.Y)
 		rast.Bounds = model2d.NewRect(lo, hi)
+		rlo, rhi = m3.V2(lo), m3.V2(hi)
 		size = hi.Sub(lo)
 		o.Label("explicit-bounds")
 	}
@@ -214,10 +274,24 @@ func checkRast(c rastCase, o *kit.Obs) error {
 	// repeated and multi-core unfiltered runs
 	var again *image.Gray
 	withProcs(5, func() { again = rast.RasterizeSolid(solid) })
-	if d := diffImages(ref, again); d != "" {
+	if d, _ := diffImages(ref, again, nil); d != "" {
 		return fmt.Errorf("RasterizeSolid at GOMAXPROCS=5 differs from GOMAXPROCS=1: %s", d)
 	}
-	nontrivial := false
+	if c.Pad == nil {
+		rlo, rhi = m3.V2(solid.Min()), m3.V2(solid.Max()) // collider mode: the hollow solid is larger than the collider
+	}
+	var excused func(x, y int) bool
+	sub := c.Sub
+	if sub == 0 {
+		sub = 8 // RasterizerDefaultSubsamples
+	}
+	switch c.Mode {
+	case "collidersolid":
+		excused = undecidedPixel(rlo, rhi, ref.Rect.Dx(), ref.Rect.Dy(), sub, colDist, 0)
+	case "collider":
+		excused = undecidedPixel(rlo, rhi, ref.Rect.Dx(), ref.Rect.Dy(), sub, colDist, 0.5*lw/rast.Scale)
+	}
+	nontrivial, undecided := false, false
 	for i, cfg := range c.Cfgs {
 		var got *image.Gray
 		var rejected int64
@@ -238,8 +312,13 @@ func checkRast(c rastCase, o *kit.Obs) error {
 			withProcs(cfg.Procs, func() { got = rast.RasterizeCollider(cc) })
 			rejected = cc.rejected
 		}
-		if d := diffImages(ref, got); d != "" {
+		d, nExcused := diffImages(ref, got, excused)
+		if d != "" {
 			return fmt.Errorf("configuration %d (%v) of mode %s: scale %v, subsamples %d, line width %v, image %v, %d tiles rejected by the filter: %s", i, cfg, c.Mode, rast.Scale, c.Sub, c.LineW, ref.Rect.Max, rejected, d)
+		}
+		if nExcused > 0 && !undecided {
+			undecided = true
+			o.Skip("sample-point-on-the-outline")
 		}
 		if rejected > 0 {
 			nontrivial = true
@@ -262,5 +341,3 @@ func checkRast(c rastCase, o *kit.Obs) error {
 	return nil
 }
 
-var _ = m3.V2
-var _ kit.V2
